@@ -88,7 +88,7 @@ func state(r *kcp.RingBuffer[int]) string {
 }
 
 func (x *runner) viol(kind, detail string) {
-	x.o.Violate(hx.Violation{Kind: kind, Detail: detail, Replay: []string{x.key.String()}})
+	x.o.Violate(hx.Violation{Kind: kind, Detail: detail, Replay: strings.Split(strings.TrimSuffix(x.key.String(), ";"), ";")})
 }
 
 // liveCheck compares the ring with the list oracle through the public API only.
@@ -253,7 +253,8 @@ func (x *runner) apply(op string, f []string) string {
 			x.o.Count("iter:wrapped")
 		}
 		// the closure's captured state: an order-sensitive checksum of the values it is shown
-		var acc, accQ uint32
+		// (starts at 1 so that a leading zero slot shown to the callback changes it)
+		var acc, accQ uint32 = 1, 1
 		fn := func(p *int) bool {
 			old := *p
 			acc = acc*31 + uint32(old)
